@@ -1408,7 +1408,11 @@ class Scheduler:
             def callback(result):
                 # Copy the evaluation bookkeeping from the completed expression `expr2`
                 # to our detected duplicate expression `expr`.
-                if isinstance(expr2, TaskExpression):
+                if isinstance(expr2, SchedulerExpression):
+                    # Upstreams of scheduler expressions are found through their arguments
+                    # (see `RedunBackendDb._find_arg_upstreams()`), not their call_hash.
+                    expr._upstreams = expr2._upstreams
+                elif isinstance(expr2, TaskExpression):
                     expr.call_hash = expr2.call_hash  # ty: ignore[unresolved-attribute]
                 elif isinstance(expr2, SimpleExpression):
                     expr._upstreams = expr2._upstreams
